@@ -41,6 +41,7 @@ public:
   void operator = (const CPPStructType &copy);
 
   void append_derivation(CPPType *base, CPPVisibility vis, bool is_virtual);
+  bool remove_cyclic_derivation();
 
   CPPScope *get_scope() const;
 
